@@ -318,7 +318,8 @@ class TBRMatchedMarkets:
     budget_range = self.parameters.budget_range
 
     # Do not store patterns when we have the last treatment pattern size.
-    skip_this_trt_group_size = list(self.treatment_group_size_range()).pop()
+    sizes = list(self.treatment_group_size_range())
+    skip_this_trt_group_size = sizes.pop() if sizes else None
     skip_treatment_geo_patterns = []
 
     results = heapdict.HeapDict(size=self.parameters.n_designs)
